@@ -64,6 +64,12 @@ Definition outcome {A} (t : trace A) : list A * option err := (yields (fst t), s
 Definition all_sync (ss : list src) : bool := forallb (fun s => match fst s with KSync => true | KAsync => false end) ss.
 Definition is_sync (k : kind) : bool := match k with KSync => true | KAsync => false end.
 
+(* the distinguished element: Python's None is transported as this value (sources may contain it; it is also the default
+   fill value of zip_longest).  Callbacks treat it as Python does: arithmetic on it is a TypeError, it is falsy. *)
+Definition none_code : Z := (-99)%Z.
+Definition is_none (z : Z) : bool := (z =? none_code)%Z.
+Definition truthy (z : Z) : bool := negb (z =? 0)%Z && negb (is_none z).
+
 (* `[element async for element in _iterate(iterable)]` *)
 Fixpoint collect {B} (k : kind) (l : list Z) : list (event B) :=
   match l with
@@ -79,21 +85,25 @@ Fixpoint emit_sync {B} (vs : list B) : list (event B) :=
   end.
 
 (* ------------------------------------------------------------------------------------------------ *)
-(* accumulate (150-172) *)
-Fixpoint accumulate_loop (f : Z -> Z -> Z) (k : kind) (total : Z) (l : list Z) : list (event Z) :=
+(* accumulate; the callback may raise (None = TypeError, e.g. `None + 1`): the elements accumulated so far have been
+   yielded and the traversal ends with the error *)
+Fixpoint accumulate_loop (f : Z -> Z -> option Z) (k : kind) (total : Z) (l : list Z) : trace Z :=
   match l with
-  | [] => pre k
-  | x :: r => pre k ++ Yield (f total x) :: accumulate_loop f k (f total x) r
+  | [] => (pre k, None)
+  | x :: r => match f total x with
+              | Some t => tapp (pre k ++ [Yield t]) (accumulate_loop f k t r)
+              | None => (pre k, Some TypeError)
+              end
   end.
 
-Definition accumulate_model (f : Z -> Z -> Z) (initial : option Z) (s : src) : trace Z :=
+Definition accumulate_model (f : Z -> Z -> option Z) (initial : option Z) (s : src) : trace Z :=
   let (k, l) := s in
   match initial with
   | None => match l with
             | [] => (pre k ++ [Ck], None)
-            | x :: r => (pre k ++ Yield x :: accumulate_loop f k x r, None)
+            | x :: r => tapp (pre k ++ [Yield x]) (accumulate_loop f k x r)
             end
-  | Some i => (CkIf :: Sh :: Yield i :: accumulate_loop f k i l, None)
+  | Some i => tapp [CkIf; Sh; Yield i] (accumulate_loop f k i l)
   end.
 
 (* batched (175-198); j = iterations of `for _ in range(n)` still to run, including the current one *)
@@ -209,7 +219,7 @@ Fixpoint compress_go (kd ks : kind) (d s : list Z) (y : bool) : list (event Z) :
       pre kd ++
       match s with
       | [] => pre ks ++ tail y
-      | b :: s' => pre ks ++ if zb b then Yield x :: compress_go kd ks d' s' true
+      | b :: s' => pre ks ++ if truthy b then Yield x :: compress_go kd ks d' s' true
                              else compress_go kd ks d' s' y
       end
   end.
@@ -477,20 +487,29 @@ Definition zip_longest_model (fill : Z) (ss : list src) : trace (list Z) :=
    checkpoints) with one Call per `await function(value, element)`; every error-free call ends with
    `await cancel_shielded_checkpoint()`; the returned value is the final Yield.  cancelled = the caller's scope is
    already cancelled at entry: the initial check raises and nothing else happens. *)
-Fixpoint reduce_loop (f : Z -> Z -> Z) (value : Z) (l : list Z) : list (event Z) * Z :=
+Fixpoint reduce_loop (f : Z -> Z -> option Z) (value : Z) (l : list Z) : list (event Z) * option Z :=
   match l with
-  | [] => ([Nx], value)
-  | x :: r => let '(ev, v) := reduce_loop f (f value x) r in (Nx :: Call :: ev, v)
+  | [] => ([Nx], Some value)
+  | x :: r => match f value x with
+              | Some v' => let '(ev, v) := reduce_loop f v' r in (Nx :: Call :: ev, v)
+              | None => ([Nx; Call], None)         (* the callback raised *)
+              end
   end.
 
-Definition reduce_model (f : Z -> Z -> Z) (initial : option Z) (s : src) (cancelled : bool) : trace Z :=
+Definition reduce_finish (pref : list (event Z)) (lp : list (event Z) * option Z) : trace Z :=
+  match lp with
+  | (ev, Some v) => (pref ++ ev ++ [Sh; Yield v], None)
+  | (ev, None) => (pref ++ ev, Some TypeError)
+  end.
+
+Definition reduce_model (f : Z -> Z -> option Z) (initial : option Z) (s : src) (cancelled : bool) : trace Z :=
   if cancelled then ([CkIf], Some Cancelled) else
   match initial with
   | None => match snd s with
             | [] => ([CkIf; Nx], Some TypeError)
-            | x :: r => let '(ev, v) := reduce_loop f x r in (CkIf :: Nx :: ev ++ [Sh; Yield v], None)
+            | x :: r => reduce_finish [CkIf; Nx] (reduce_loop f x r)
             end
-  | Some i => let '(ev, v) := reduce_loop f i (snd s) in (CkIf :: ev ++ [Sh; Yield v], None)
+  | Some i => reduce_finish [CkIf] (reduce_loop f i (snd s))
   end.
 
 (* the shape before the fix (kept for the refutation witness): the only checkpoint was `if not function_called` *)
@@ -513,13 +532,20 @@ Definition reduce_model_pre_F22 (f : Z -> Z -> Z) (initial : option Z) (s : src)
 (* ------------------------------------------------------------------------------------------------ *)
 (* Specs: the standard-library functions on lists *)
 
-Fixpoint scanl (f : Z -> Z -> Z) (a : Z) (l : list Z) : list Z :=
-  a :: match l with [] => [] | x :: r => scanl f (f a x) r end.
+(* running results with a callback that may raise: the results up to the failing application, then TypeError *)
+Fixpoint scanl_p (f : Z -> Z -> option Z) (a : Z) (l : list Z) : list Z * option err :=
+  match l with
+  | [] => ([a], None)
+  | x :: r => match f a x with
+              | Some t => let (ys, e) := scanl_p f t r in (a :: ys, e)
+              | None => ([a], Some TypeError)
+              end
+  end.
 
-Definition accumulate_spec (f : Z -> Z -> Z) (initial : option Z) (l : list Z) : list Z * option err :=
+Definition accumulate_spec (f : Z -> Z -> option Z) (initial : option Z) (l : list Z) : list Z * option err :=
   match initial with
-  | None => match l with [] => ([], None) | x :: r => (scanl f x r, None) end
-  | Some i => (scanl f i l, None)
+  | None => match l with [] => ([], None) | x :: r => scanl_p f x r end
+  | Some i => scanl_p f i l
   end.
 
 Fixpoint chunks (fuel n : nat) (l : list Z) : list (list Z) :=
@@ -548,7 +574,7 @@ Definition product_spec (rep : Z) (ls : list (list Z)) : list (list Z) * option 
   if (rep <? 0)%Z then ([], Some ValueError) else (product_oracle ls (zn rep), None).
 
 Definition compress_spec (d s : list Z) : list Z * option err :=
-  (map fst (filter (fun p => zb (snd p)) (combine d s)), None).
+  (map fst (filter (fun p => truthy (snd p)) (combine d s)), None).
 
 Definition count_spec (start step : Z) (k : nat) : list Z * option err :=
   (map (fun i => (start + Z.of_nat i * step)%Z) (seq 0 k), None).
@@ -627,10 +653,19 @@ Definition max_len (ls : list (list Z)) : nat := fold_right (fun l a => Nat.max 
 Definition zip_longest_spec (fill : Z) (ls : list (list Z)) : list (list Z) * option err :=
   (map (fun i => map (fun l => nth i l fill) ls) (seq 0 (max_len ls)), None).
 
-Definition reduce_spec (f : Z -> Z -> Z) (initial : option Z) (l : list Z) : list Z * option err :=
+Fixpoint fold_p (f : Z -> Z -> option Z) (l : list Z) (a : Z) : option Z :=
+  match l with
+  | [] => Some a
+  | x :: r => match f a x with Some t => fold_p f r t | None => None end
+  end.
+
+Definition reduce_result (o : option Z) : list Z * option err :=
+  match o with Some v => ([v], None) | None => ([], Some TypeError) end.
+
+Definition reduce_spec (f : Z -> Z -> option Z) (initial : option Z) (l : list Z) : list Z * option err :=
   match initial with
-  | None => match l with [] => ([], Some TypeError) | x :: r => ([fold_left f r x], None) end
-  | Some i => ([fold_left f l i], None)
+  | None => match l with [] => ([], Some TypeError) | x :: r => reduce_result (fold_p f r x) end
+  | Some i => reduce_result (fold_p f l i)
   end.
 
 (* ------------------------------------------------------------------------------------------------ *)
@@ -884,7 +919,7 @@ Fixpoint compress_self_go (k : kind) (l : list Z) (y : bool) : list (event Z) :=
   match l with
   | [] => pre k ++ tail y
   | [_] => pre k ++ pre k ++ tail y
-  | x :: b :: r => pre k ++ pre k ++ if zb b then Yield x :: compress_self_go k r true
+  | x :: b :: r => pre k ++ pre k ++ if truthy b then Yield x :: compress_self_go k r true
                                      else compress_self_go k r y
   end.
 
@@ -988,7 +1023,7 @@ Fixpoint pair_up (l : list Z) : list (Z * Z) :=
   | _ => []
   end.
 Definition compress_self_spec (l : list Z) : list Z * option err :=
-  (map fst (filter (fun p => zb (snd p)) (pair_up l)), None).
+  (map fst (filter (fun p => truthy (snd p)) (pair_up l)), None).
 
 (* zip_longest: in every round each position that is not exhausted takes the next element of its (possibly
    shared) iterator, in argument order; a position whose iterator has nothing left is exhausted from then on and
@@ -1029,7 +1064,17 @@ Definition fn2 (c : Z) : Z -> Z -> Z :=
 Definition predf (c : Z) : Z -> bool :=
   match c with
   | 0 => fun x => (x mod 2 =? 1)%Z | 1 => fun x => (x <? 1)%Z | 2 => fun x => (x <? 2)%Z
-  | 3 => fun _ => true | 4 => fun _ => false | _ => fun x => (x =? 1)%Z
+  | 3 => fun _ => true | 4 => fun _ => false | 6 => is_none | _ => fun x => (x =? 1)%Z
+  end%Z.
+
+(* the callbacks of accumulate / reduce as Python runs them: arithmetic on None raises TypeError; first, second and
+   coalesce (`b if b is not None else a`) accept anything *)
+Definition lift2 (g : Z -> Z -> Z) (a b : Z) : option Z := if is_none a || is_none b then None else Some (g a b).
+Definition fn2p (c : Z) : Z -> Z -> option Z :=
+  match c with
+  | 0 => lift2 Z.add | 1 => lift2 Z.mul | 2 => lift2 Z.max | 3 => fun a _ => Some a | 4 => fun _ b => Some b
+  | 5 => lift2 (fun a b => (2 * a + b)%Z) | 7 => fun a b => Some (if is_none b then a else b)
+  | _ => lift2 (fun a b => (a - b)%Z)
   end%Z.
 
 Definition keyf (c : Z) : Z -> Z :=
@@ -1126,12 +1171,11 @@ Definition eP (p : Z * Z) : list Z := [fst p; snd p].
 Definition eG (p : Z * list Z) : list Z := fst p :: snd p.
 
 (* fill value of zip_longest: None is transported as this sentinel on both sides *)
-Definition none_code : Z := (-99)%Z.
 
 Definition run_model_case (c : list Z) : list Z :=
   match c with
   | 1 :: fc :: r => let (i, r1) := rd_opt r in let (s, _) := rd_src r1 in
-                    enc_trace eZ (accumulate_model (fn2 fc) i s)
+                    enc_trace eZ (accumulate_model (fn2p fc) i s)
   | 2 :: n :: st :: r => let (s, _) := rd_src r in enc_trace eL (batched_model n (zb st) s)
   | 3 :: ko :: n :: r => let (ss, _) := rd_srcs (zn n) r in enc_trace eZ (chain_model (rd_kind ko) ss)
   | 4 :: rr :: r => let (s, _) := rd_src r in enc_trace eL (combinations_model rr s)
@@ -1154,9 +1198,9 @@ Definition run_model_case (c : list Z) : list Z :=
   | 19 :: n :: r => let (f, r1) := rd_opt r in let (ss, _) := rd_srcs (zn n) r1 in
                     enc_trace eL (zip_longest_model (dflt none_code f) ss)
   | 21 :: fc :: r => let (i, r1) := rd_opt r in let (s, _) := rd_src r1 in
-                     enc_trace eZ (reduce_model (fn2 fc) i s false)
+                     enc_trace eZ (reduce_model (fn2p fc) i s false)
   | 28 :: fc :: r => let (i, r1) := rd_opt r in let (s, _) := rd_src r1 in
-                     enc_trace eZ (reduce_model (fn2 fc) i s true)
+                     enc_trace eZ (reduce_model (fn2p fc) i s true)
   | 29 :: kc :: r => let (s, _) := rd_src r in enc_trace eG (groupby_model same_obj (keyf2 kc) s)
   | 30 :: ko :: na :: r => let (args, r1) := rd_opts (zn na) r in let (s, _) := rd_src r1 in
                            enc_trace eZ (islice_then_rest_model (rd_kind ko) args s)
@@ -1177,7 +1221,7 @@ Definition run_model_case (c : list Z) : list Z :=
 Definition run_spec_case (c : list Z) : list Z :=
   match c with
   | 1 :: fc :: r => let (i, r1) := rd_opt r in let (s, _) := rd_src r1 in
-                    enc_outcome eZ (accumulate_spec (fn2 fc) i (snd s))
+                    enc_outcome eZ (accumulate_spec (fn2p fc) i (snd s))
   | 2 :: n :: st :: r => let (s, _) := rd_src r in enc_outcome eL (batched_spec n (zb st) (snd s))
   | 3 :: ko :: n :: r => let (ss, _) := rd_srcs (zn n) r in enc_outcome eZ (chain_spec (map snd ss))
   | 4 :: rr :: r => let (s, _) := rd_src r in enc_outcome eL (combinations_spec rr (snd s))
@@ -1200,7 +1244,7 @@ Definition run_spec_case (c : list Z) : list Z :=
   | 19 :: n :: r => let (f, r1) := rd_opt r in let (ss, _) := rd_srcs (zn n) r1 in
                     enc_outcome eL (zip_longest_spec (dflt none_code f) (map snd ss))
   | 21 :: fc :: r => let (i, r1) := rd_opt r in let (s, _) := rd_src r1 in
-                     enc_outcome eZ (reduce_spec (fn2 fc) i (snd s))
+                     enc_outcome eZ (reduce_spec (fn2p fc) i (snd s))
   | 29 :: kc :: r => let (s, _) := rd_src r in enc_outcome eG (groupby_spec same_obj (keyf2 kc) (snd s))
   | 30 :: ko :: na :: r => let (args, r1) := rd_opts (zn na) r in let (s, _) := rd_src r1 in
                            enc_outcome eZ (islice_then_rest_spec args (snd s))
